@@ -76,7 +76,7 @@ const vmFuel = 3000 // chunks of 1000 opcodes
 func stressPatterns() []string {
 	return []string{
 		`(?:a?b?c?d?e?f?g?h?i?j?k?)*z`, `(?:ab?)*c`, `(a|b)*z`, `(\w)*z`, `(?:(a)|(b)|(c))*d`, `(?:a??b??c??)*?z`,
-		`((a)*b?)*c`, `(?:a{0,3}b{1,2}?)*c`, `(?>(?:a?b?)*)z`, `(?=(?:a?b?)*z)a`, `(?:(?<x>a)|(?<-x>b))*c`, `(?<![ab]*c)(?:a|b)*z`,
+		`((a)*b?)*c`, `(?:a{0,3}b{1,2}?)*c`, `(?>(?:a?b?)*)z`, `(?=(?:a?b?)*z)a`, `(?:(?<x>a)|(?<-x>b))*c`, `(?<![ab]*c)(?:a|b)*z`, `(?<u>a)(?<=(?<g-u>a)aa)\\k<g>`, `(?<a>a)+(?<b-a>b)+\\k<b>?c`, `(?<o>\\()*[^()]*(?<c-o>\\))*`, `(?<x>a)(?<y-x>b)(?(y)c|d)`,
 	}
 }
 
